@@ -189,10 +189,11 @@ def run(rep):
         k = rng.choice(["commit", "tag", "tree", "blob"])
         f = gen_commit(rng, True) if k == "commit" else gen_tag(rng) if k == "tag" else gen_tree(rng) if k == "tree" else {"data": hx(b"one")}
         ops = []
+        cur = f          # the fields the live object holds at this point (for choosing legal edits); f stays the initial state
         for _ in range(rng.randrange(2, 12)):
             if k != "blob" and rng.random() < 0.12:
                 ops.append(["reparse", gen_commit(rng, True) if k == "commit" else gen_tag(rng) if k == "tag" else gen_tree(rng)])
-                f = ops[-1][1]
+                cur = ops[-1][1]
             elif rng.random() < 0.5:
                 if k == "commit":
                     name = rng.choice(["author", "committer", "message", "parents", "tree", "commit_time", "author_tz", "encoding", "gpgsig"])
@@ -203,7 +204,7 @@ def run(rep):
                 elif k == "tag":
                     name = rng.choice(["name", "object", "message", "tagger", "tag_time"])
                     val = {"name": hx(b"n%d" % rng.randrange(9)), "object": h40(rng), "message": hx(b"m\n"), "tagger": ident(rng), "tag_time": gen_time(rng)}[name]
-                    if name in ("tagger", "tag_time") and f.get("tagger") is None:
+                    if name in ("tagger", "tag_time") and cur.get("tagger") is None:
                         continue
                 elif k == "tree":
                     name = rng.choice(["add", "add", "del"])
@@ -247,7 +248,7 @@ def run(rep):
                          {"kind": q["kind"], "fields": q["fields"], "ops": q["ops"]})
                 break
             if res.startswith("E:"):
-                rep.fail("edit-raised", "an edit / observation raised %s" % res, {"kind": q["kind"], "ops": q["ops"]})
+                rep.fail("edit-raised", "an edit / observation (%s) raised %s" % (op[0], res), {"kind": q["kind"], "fields": q["fields"], "ops": q["ops"]})
                 break
 
 
